@@ -21,7 +21,7 @@ def harness_pairs(chk, progs, tag):
         o = json.loads(line)
         chk.add("evaluations")
         if "panic" in o:
-            chk.report("panic:%s" % o["panic"]["loc"].replace("/repo/", ""), "desugaring panics on:\n%s\n%s" % (o["text"], o["panic"]["msg"]), o)
+            chk.report("panic:%s" % lib.norm_loc(o["panic"]["loc"]), "desugaring panics on:\n%s\n%s" % (o["text"], o["panic"]["msg"]), o)
         elif "rejected" in o or "unsupported" in o:
             chk.add("rejected")
         elif o.get("warn"):
